@@ -204,6 +204,20 @@ CHECKS["C16"] = dict(
     note="Closures are harness programs that drop what they own at their end and while unwinding (rustc's drop glue); tempfile/fs_extra/"
          "fastrand are stubs by contract; commands that cannot be spawned and buildpack packaging (cargo) are outside. " + BASE_NOTE)
 
+CHECKS["C14"] = dict(
+    text="Bounded model checking from MIR of normalize_package_descriptor, replace_libcnb_uris, replace_libcnb_uri, "
+         "absolutize_dependency_paths, buildpack_id_from_libcnb_dependency (with all closures), util::{absolutize_path, normalize_path}, "
+         "PackageDescriptorDependency::try_from and BuildpackId::from_str. Descriptors: 0..2 (quick) / 0..3 (thorough) dependencies of the six "
+         "kinds in every order and multiplicity at two locations with a 0..2-entry id->path map, plus a single relative dependency in every "
+         "shape of 1..3 / 1..4 components from {., .., n, m.d} with optional doubled/trailing separator at four locations (incl. `/`, so "
+         "climbing above the root). Buildpack ids, map keys and values and the tails of verbatim URIs are SMT strings; the solver decides per "
+         "path: Err <=> some libcnb id is invalid or not a key; otherwise same number and order, libcnb -> the value of exactly the equal key, "
+         "relative -> posix normpath(join(location, path)), every other URI verbatim, buildpack uri and platform unchanged.",
+    design_ref="DESIGN.md §5 C14",
+    technique="symbolic execution of rustc MIR (mirsym) with SMT strings for ids/paths + z3; reference = lexical path normalisation and map lookup as SMT terms; witness replay through package_composite_buildpack in a chroot-ed scratch tree",
+    note="uriparse::URIReference is a model (mirsym/summ_uri.py: RFC 3986 shape, text/scheme/path preserved); symbolic pieces are unreserved URI "
+         "characters without empty path segments; TOML reading/writing of package.toml is C08/C07's subject (the replay goes through the real files). " + BASE_NOTE)
+
 NOT_YET = "check not built yet in this round (see DESIGN.md §9 build order); no claim is made"
 NOT_APPLICABLE = {}
 ALL = [f"C{i:02d}" for i in range(1, 21)]
